@@ -3,6 +3,7 @@ Driver for the transfer-function family: a postfix stack program per line.
 -/
 import CtrlVerif.Driver.Util
 import CtrlVerif.Model.TFDyn
+import CtrlVerif.Model.TFCall
 import CtrlVerif.Driver.TFAudit
 import Mathlib.Algebra.Field.Rat
 
@@ -106,6 +107,34 @@ def binop (name : String) (a b : Operand Q) : Except String (Except Err (Operand
   | "vcat", a, b => pure (wrap ((toSys a).vcat (toSys b)))
   | _, _, _ => throw s!"binop:{name}"
 
+/-- [v01] audit of the n-ary function forms `series` (`name = "mul"`: `y * acc`), `parallel`
+(`"add"`: `acc + y`), `append` (no arithmetic): the audits of the steps the implementation
+executes, on the same intermediate values (up to the first step that raises), and the largest
+coefficient bit length of an intermediate result. -/
+def foldExact (name : String) (G : DTF Q) (xs : List (Operand Q)) : Bool × Nat := Id.run do
+  let mut acc := G
+  let mut ok := true
+  let mut mb := 0
+  for y in xs do
+    let a : Operand Q := if name == "mul" then y else .sys acc
+    let b : Operand Q := if name == "mul" then .sys acc else y
+    ok := ok && binopExact name a b
+    match binop name a b with
+    | .ok (.ok (.sys r)) =>
+      acc := force r
+      mb := max mb (bitsOf acc)
+    | _ => return (ok, mb)
+  pure (ok, mb)
+
+/-- [v01] pop the `n` arguments of an n-ary function form: `(first argument, the others in call
+order, rest of the stack)`. -/
+def popArgs (n : Nat) (stack : List (Operand Q)) : Option (Operand Q × List (Operand Q) × List (Operand Q)) :=
+  if n = 0 ∨ stack.length < n then none
+  else
+    match (stack.take n).reverse with
+    | a :: xs => some (a, xs, stack.drop n)
+    | [] => none
+
 /-- error answer; `fx` as in `run` (includes the audit of the operation that failed: the steps
 the implementation executes before it raises). -/
 def errLine (e : Err) (fx : Bool) : String := showErr e ++ s!" fx={if fx then 1 else 0}"
@@ -150,6 +179,36 @@ partial def run (stack : List (Operand Q)) (mb : Nat := 0) (fx : Bool := true) :
           let y' := force y
           run (.sys y' :: rest) (max mb (bitsOf y')) (fx && feedbackExactOp G b sign)
         | .error e => pure (errLine e (fx && feedbackExactOp G b sign))
+      | _ => throw "stack"
+    -- [v01] function-call forms of bdalg (Model/TFCall.lean)
+    | "fbf" =>
+      let sign ← pRat
+      match stack with
+      | b :: a :: rest =>
+        let fxo := fx && feedbackExactOp (DTF.Operand.toSys a) b sign
+        match DTF.feedbackFn a b sign with
+        | .ok y => let y' := force y; run (.sys y' :: rest) (max mb (bitsOf y')) fxo
+        | .error e => pure (errLine e fxo)
+      | _ => throw "stack"
+    | "negate" =>
+      match stack with
+      | .sys G :: rest =>
+        match DTF.negateFn G with
+        | .ok y => let y' := force y; run (.sys y' :: rest) (max mb (bitsOf y')) fx
+        | .error e => pure (errLine e fx)
+      | _ => throw "stack"
+    | "series" | "parallel" | "appendn" =>
+      let n ← pNat
+      match popArgs n stack with
+      | some (.sys G, xs, rest) =>
+        let au := if t == "series" then foldExact "mul" G xs
+          else if t == "parallel" then foldExact "add" G xs else (true, 0)
+        let r := if t == "series" then DTF.seriesFn G xs
+          else if t == "parallel" then DTF.parallelFn G xs else DTF.appendFn G xs
+        let fxo := fx && au.1
+        match r with
+        | .ok y => let y' := force y; run (.sys y' :: rest) (max (max mb au.2) (bitsOf y')) fxo
+        | .error e => pure (errLine e fxo)
       | _ => throw "stack"
     | "sel" =>
       let rows ← pList pNat
